@@ -332,6 +332,10 @@ impl<'r> Emitter<'r> {
     }
 
     pub fn datetime_lit(&mut self) -> String {
+        if self.cfg.exotic && self.rng.chance(1, 3) {
+            let (ts, zone) = zoned_instant(self.rng);
+            return format!("{ts} {zone}");
+        }
         let date = format!("2021-06-{:02}", self.rng.range(1, 28));
         let time = self.time_lit();
         match self.rng.below(4) {
@@ -543,6 +547,43 @@ pub fn gen_doc(rng: &mut Rng, cfg: &GenCfg, want: Option<&'static str>) -> ZincD
         }
     }
     ZincDoc { text: em.out, tokens: em.tokens, header_end, rows, kind }
+}
+
+/// An instant spelled in a zone of the tz database, as (RFC 3339 local time with offset, Haystack
+/// zone name). Instants are drawn around the days on which these zones change their offset (the
+/// repeated and the skipped wall-clock hour, half-hour shifts, the date line move of 2011, +13/+14
+/// zones) by converting from UTC, so every spelling is a real instant; fractions of 1-9 digits.
+pub fn zoned_instant(rng: &mut Rng) -> (String, String) {
+    use chrono::{Datelike, Duration, Offset, TimeZone, Timelike, Utc};
+    const IDS: &[&str] = &[
+        "America/New_York", "America/Los_Angeles", "America/Chicago", "Europe/London", "Europe/Berlin", "Australia/Sydney", "America/Sao_Paulo", "Australia/Lord_Howe",
+        "Asia/Kolkata", "Asia/Kathmandu", "Pacific/Auckland", "Pacific/Apia", "Pacific/Kiritimati", "Pacific/Tongatapu", "Pacific/Chatham", "Africa/Cairo", "America/St_Johns",
+        "Asia/Tehran", "Europe/Dublin", "America/Argentina/Buenos_Aires", "America/Indiana/Knox", "Antarctica/Troll", "Asia/Tokyo", "Etc/GMT+12", "Etc/GMT-14", "Etc/UTC", "America/Havana",
+    ];
+    const DAYS: &[(i32, u32, u32)] = &[
+        (2021, 3, 14), (2021, 11, 7), (2021, 3, 28), (2021, 10, 31), (2021, 4, 4), (2021, 10, 3), (2021, 9, 26), (2021, 4, 3), (2021, 9, 25), (2021, 3, 21), (2021, 9, 21),
+        (2021, 1, 15), (2021, 7, 15), (2011, 12, 29), (2011, 12, 30), (1999, 12, 31), (2038, 1, 19), (2016, 12, 31), (1970, 1, 1),
+    ];
+    let id = rng.pick_str(IDS);
+    let tz: chrono_tz::Tz = id.parse().unwrap_or(chrono_tz::UTC);
+    let (y, m, d) = *rng.pick(DAYS);
+    let base = Utc.with_ymd_and_hms(y, m, d, 0, 0, 0).single().unwrap_or_default();
+    let at = base + Duration::minutes(rng.below(48 * 4) as i64 * 15 - 12 * 60) + Duration::seconds(if rng.chance(1, 2) { rng.below(60) as i64 } else { 0 });
+    let local = at.with_timezone(&tz);
+    let off = local.offset().fix().local_minus_utc();
+    let (sign, a) = if off < 0 { ('-', -off) } else { ('+', off) };
+    let mut ts = format!("{:04}-{:02}-{:02}T{:02}:{:02}:{:02}", local.year(), local.month(), local.day(), local.hour(), local.minute(), local.second());
+    if rng.chance(1, 2) {
+        let digits = rng.range(1, 9);
+        ts.push('.');
+        for i in 0..digits {
+            let dgt = if i == 0 && rng.chance(1, 3) { 0 } else { rng.below(10) };
+            ts.push((b'0' + dgt as u8) as char);
+        }
+    }
+    ts.push_str(&format!("{sign}{:02}:{:02}", a / 3600, (a % 3600) / 60));
+    let zone = id[id.find('/').map_or(0, |i| i + 1)..].to_string();
+    (ts, zone)
 }
 
 /// Length ladder documents ("any length"): one construct repeated n times without nesting.
